@@ -116,3 +116,11 @@ func (v *VerifEventStream) BufCap() int              { return cap(v.es.eventCh) 
 func VerifQueryStream(rec *VerifRecorder, seq uint64, resp *serf.QueryResponse) {
 	newQueryResponseStream(rec, seq, log.New(io.Discard, "", 0)).Stream(resp)
 }
+
+// VerifEventHandlerCount is the number of registered event handlers (the harness waits for a
+// disconnected client's streams to be deregistered before it fires further events).
+func (a *Agent) VerifEventHandlerCount() int {
+	a.eventHandlersLock.Lock()
+	defer a.eventHandlersLock.Unlock()
+	return len(a.eventHandlers)
+}
